@@ -219,6 +219,13 @@ theorem kn_apply {st st' : State} {op : Op} {r : Res} (h : KeysNodup st.kv) (hs 
     simp only [Prod.mk.injEq] at he
     obtain ⟨rfl, _⟩ := he
     exact kn_settle h hc
+  | fill m wb f fu ids total =>
+    simp only [apply, withKv, Option.map_eq_some_iff] at hs
+    obtain ⟨kv, hc, he⟩ := hs
+    simp only [Prod.mk.injEq] at he
+    obtain ⟨rfl, _⟩ := he
+    obtain ⟨_, _, os, _, _, rfl⟩ := fillOrders_eq hc
+    exact keysNodup_foldl _ (fun a o ha => kn_deleteAndDeIndexOrder ha o) _ _ h
   | commit m a amt =>
     simp only [apply, withKv, Option.map_eq_some_iff] at hs
     obtain ⟨kv, hc, he⟩ := hs
